@@ -935,38 +935,97 @@ def check_simplex_model(ctx, simplex, systems, label):
 
 
 def run_bb(simplex, rows, enc):
+    """branch_and_bound on a fresh Simplex; also returns the variables find_not_int_var chose (the
+    oracle argument of the model), the full mapping it returned and the exceptions raised inside nodes."""
     s = simplex.Simplex()
     orig = simplex.deque
     simplex.deque = BudgetDeque
+    picks, excs = [], []
+    orig_find, orig_ha = simplex.Simplex.find_not_int_var, simplex.Simplex.handle_assertion
+
+    def find(self):
+        r = orig_find(self)
+        if r is not None:
+            picks.append(var_id(r[0]))
+        return r
+
+    def ha(self):
+        try:
+            return orig_ha(self)
+        except Exception as e:  # noqa
+            excs.append(type(e).__name__)
+            raise
+    simplex.Simplex.find_not_int_var, simplex.Simplex.handle_assertion = find, ha
+    info = {"picks": picks, "excs": excs}
     try:
         s.add_ineqs(*build_ineqs(simplex, rows, enc))
         r = simplex.branch_and_bound(s, [], [])
     except Exception as e:  # noqa
-        return ("raise", type(e).__name__)
+        return ("raise", type(e).__name__), info
     finally:
         simplex.deque = orig
+        simplex.Simplex.find_not_int_var, simplex.Simplex.handle_assertion = orig_find, orig_ha
+    info["nodes"] = BudgetDeque.last.pops
     if BudgetDeque.last.exhausted:
-        return ("gave-up",)
+        return ("gave-up",), info
     if isinstance(r, dict):
-        return ("sat", {int(v[1:]): Fraction(x) for v, x in r.items() if v.startswith("x")})
+        info["mapping"] = {var_id(v): Fraction(x) for v, x in r.items()}
+        return ("sat", {int(v[1:]): Fraction(x) for v, x in r.items() if v.startswith("x")}), info
     if isinstance(r, simplex.IntSimplexTree):
-        return ("unsat",)
-    return ("other", repr(r))
+        return ("unsat",), info
+    return ("other", repr(r)), info
 
 
 def check_bb(ctx, simplex, systems, label):
     rng = ctx.rng("bb-enc-" + label)
     runs = []
+    infos = []
     lines = []
     for rows, shape in systems:
         enc = choose_enc(rng, rows)
-        res = run_bb(simplex, rows, enc)
+        res, info = run_bb(simplex, rows, enc)
         runs.append((rows, enc, res))
+        infos.append(info)
+        for e in info["excs"]:
+            ctx.count("bb:node-exception:" + e)
+            if e not in ("UNSATException", "AssertUpperException", "AssertLowerException"):
+                # the bare `except:` would treat this node as infeasible: not covered by the model
+                ctx.count("bb:node-exception-not-modelled")
         if res[0] == "sat":
             nv = len(rows[0]) - 1
             ok = all(x.denominator == 1 for x in res[1].values())
             lines.append(sexp.dumps(["witness", rows, [int(res[1].get(i, 0)) for i in range(nv)] if ok else []]))
     out = ctx.lean_driver(EXE, lines) if lines else []
+    # correspondence with the model of the search loop (the variables the real run branched on are the oracle)
+    mlines = []
+    for (rows, enc, res), info in zip(runs, infos):
+        qs = []
+        for k, r in enumerate(rows):
+            if enc[k]:
+                qs.append(["ge", [[100 + i, c] for i, c in enumerate(r[:-1]) if c != 0], -r[-1]])
+            else:
+                qs.append(["le", [[100 + i, -c] for i, c in enumerate(r[:-1]) if c != 0], r[-1]])
+        mlines.append(sexp.dumps(["bb", SIMPLEX_FUEL, BudgetDeque.budget, info["picks"], qs]))
+    mout = ctx.lean_driver(EXE, mlines) if mlines else []
+    ndis = 0
+    for idx, ((rows, enc, res), info) in enumerate(zip(runs, infos)):
+        if mout is None or res[0] in ("raise", "other"):
+            continue
+        x = sexp.loads(mout[idx])
+        if x == "bad-op":
+            m = ("bad-op",)
+        else:
+            kind = x[0] if isinstance(x[0], str) else x[0][0]
+            m = ({"found": "sat", "none": "unsat", "gaveup": "gave-up"}.get(kind, kind), int(x[1]),
+                 {int(v): Fraction(q) for v, q in x[0][1]} if kind == "found" else None)
+        impl = (res[0], info.get("nodes"), info.get("mapping"))
+        ctx.count("bb-model:branchings", len(info["picks"]))
+        if m != impl:
+            ndis += 1
+            if ndis <= 3:
+                ctx.broken("correspondence:c16:bb", "rows=%s enc=%s picks=%s impl=%s model=%s" % (
+                    rows, "".join("g" if e else "l" for e in enc), info["picks"], impl[:2], m[:2]))
+                ctx.coverage["disagreements_checked"] += 1
     pos = 0
     for rows, enc, res in runs:
         nv = len(rows[0]) - 1
